@@ -51,8 +51,33 @@ def _num(c):
     return float(c)
 
 
+SHARE = False    # True: every Point handed to a constructor by to_lib() also serves other, later moved, lines /
+                 # segments / half-lines, before and after the construction (see shared_points())
+_CREATED = []
+
+
 def P(p):
-    return Point(_num(p[0]), _num(p[1]), _num(p[2]))
+    pt = Point(_num(p[0]), _num(p[1]), _num(p[2]))
+    if SHARE:
+        use_point_elsewhere(pt)
+        _CREATED.append(pt)
+    return pt
+
+
+class shared_points:
+    """context manager: operands built by to_lib() inside it are built from caller-owned Points that have other
+    legal uses (constructors that take Points must neither keep them by reference nor let other users change them)."""
+
+    def __enter__(self):
+        global SHARE
+        self.old = SHARE
+        SHARE = True
+        del _CREATED[:]
+
+    def __exit__(self, *a):
+        global SHARE
+        SHARE = self.old
+        del _CREATED[:]
 
 
 def V(d):
@@ -98,7 +123,13 @@ def to_lib(o):
     if o is not None and not _valid(o):
         raise InvalidScene('harness built an invalid %s: %r' % (o[0], o))
     try:
-        return _to_lib(o)
+        r = _to_lib(o)
+        if SHARE:
+            for pt in _CREATED:
+                if pt is not r:
+                    use_point_elsewhere(pt)
+            del _CREATED[:]
+        return r
     except (LibTimeout, ConstructionFailed):
         raise
     except Exception as e:  # noqa
@@ -390,5 +421,9 @@ def use_point_elsewhere(pt):
     l.move(Vector(0.5, -4.0, 2.0))
     l2 = Line(pt, Point(float(pt[0]) + 1.0, float(pt[1]) - 2.0, float(pt[2]) + 0.5))
     l2.move(Vector(-3.0, 1.0, 1.0))
+    sg = Segment(pt, Point(float(pt[0]) + 1.0, float(pt[1]) - 2.0, float(pt[2]) + 0.5))
+    sg.move(Vector(2.0, -1.0, 0.5))
+    hl = HalfLine(pt, Vector(1.0, 0.5, -2.0))
+    hl.move(Vector(-1.0, 3.0, 1.0))
     hash(pt), list(pt.pv()), repr(pt)
     return pt
